@@ -106,23 +106,56 @@ func Process(stmts []*proto.Statement, rwrand, rwtime bool) (retErr error) {
 func ContainsTime(stmt string) bool {
 	// Since this is a simple substring search, it also matches datetime(
 	// and strftime(.
-	targets := []string{"time(", "date(", "julianday(", "unixepoch(", "timediff("}
-	for _, target := range targets {
-		if strings.Contains(stmt, target) {
-			return true
-		}
-	}
-	return false
+	return containsCall(stmt, []string{"time", "date", "julianday", "unixepoch", "timediff"})
 }
 
 // ContainsRandom returns true if the statement contains a random-related function.
 // The function performs a lower-case comparison so it is up to the caller to
 // ensure the statement is lower-cased.
 func ContainsRandom(stmt string) bool {
-	targets := []string{"random(", "randomblob("}
-	for _, target := range targets {
-		if strings.Contains(stmt, target) {
-			return true
+	return containsCall(stmt, []string{"random", "randomblob"})
+}
+
+// containsCall returns true if any of the names occurs in stmt followed by an
+// opening parenthesis. SQLite allows whitespace and comments between a function
+// name and the parenthesis, and allows the name to be quoted, so those are
+// skipped. False positives are fine, the parser has the final say.
+func containsCall(stmt string, names []string) bool {
+	for _, name := range names {
+		for from := 0; ; {
+			i := strings.Index(stmt[from:], name)
+			if i < 0 {
+				break
+			}
+			j := from + i + len(name)
+			from = from + i + 1
+			if j < len(stmt) && (stmt[j] == '"' || stmt[j] == '`' || stmt[j] == ']') {
+				j++
+			}
+			for j < len(stmt) {
+				if c := stmt[j]; c == ' ' || c == '\t' || c == '\n' || c == '\r' || c == '\f' {
+					j++
+				} else if strings.HasPrefix(stmt[j:], "/*") {
+					end := strings.Index(stmt[j+2:], "*/")
+					if end < 0 {
+						j = len(stmt)
+					} else {
+						j += end + 4
+					}
+				} else if strings.HasPrefix(stmt[j:], "--") {
+					end := strings.IndexByte(stmt[j:], '\n')
+					if end < 0 {
+						j = len(stmt)
+					} else {
+						j += end + 1
+					}
+				} else {
+					break
+				}
+			}
+			if j < len(stmt) && stmt[j] == '(' {
+				return true
+			}
 		}
 	}
 	return false
@@ -191,45 +224,49 @@ func (rw *Rewriter) Visit(node sql.Node) (w sql.Visitor, n sql.Node, err error) 
 		// If used, ensure the value is same for the duration of the statement
 		jd := julianDayAsNumberLit(rw.nowFn())
 
-		if rw.RewriteTime && len(n.Args) > 0 &&
-			(strings.EqualFold(n.Name.Name, "date") ||
-				strings.EqualFold(n.Name.Name, "time") ||
-				strings.EqualFold(n.Name.Name, "datetime") ||
-				strings.EqualFold(n.Name.Name, "julianday") ||
-				strings.EqualFold(n.Name.Name, "unixepoch")) {
-			if isNow(n.Args[0]) {
+		isTimeFn := strings.EqualFold(n.Name.Name, "date") ||
+			strings.EqualFold(n.Name.Name, "time") ||
+			strings.EqualFold(n.Name.Name, "datetime") ||
+			strings.EqualFold(n.Name.Name, "julianday") ||
+			strings.EqualFold(n.Name.Name, "unixepoch")
+		if rw.RewriteTime && isTimeFn {
+			// With no arguments the time value defaults to 'now'.
+			if len(n.Args) == 0 && n.Star == (sql.Pos{}) {
+				n.Args = []sql.Expr{jd}
+				rw.modified = true
+			} else if len(n.Args) > 0 && isNow(n.Args[0]) {
 				n.Args[0] = jd
+				rw.modified = true
 			}
-			rw.modified = true
-		} else if rw.RewriteTime && len(n.Args) > 1 &&
-			strings.EqualFold(n.Name.Name, "strftime") {
-			if isNow(n.Args[1]) {
+		} else if rw.RewriteTime && strings.EqualFold(n.Name.Name, "strftime") {
+			// With only a format the time value defaults to 'now'.
+			if len(n.Args) == 1 {
+				n.Args = append(n.Args, jd)
+				rw.modified = true
+			} else if len(n.Args) > 1 && isNow(n.Args[1]) {
 				n.Args[1] = jd
+				rw.modified = true
 			}
-			rw.modified = true
 		} else if rw.RewriteTime && len(n.Args) > 1 &&
 			strings.EqualFold(n.Name.Name, "timediff") {
 			if isNow(n.Args[0]) {
 				n.Args[0] = jd
+				rw.modified = true
 			}
 			if isNow(n.Args[1]) {
 				n.Args[1] = jd
+				rw.modified = true
 			}
-			rw.modified = true
 		} else if !rw.orderedBy && rw.RewriteRand && strings.EqualFold(n.Name.Name, "random") {
 			retNode = &sql.NumberLit{Value: strconv.Itoa(int(rw.randFn()))}
 			rw.modified = true
-		} else if !rw.orderedBy && rw.RewriteRand && strings.EqualFold(n.Name.Name, "randomblob") {
+		} else if rw.RewriteRand && strings.EqualFold(n.Name.Name, "randomblob") {
 			if len(n.Args) == 1 {
-				lit, ok := n.Args[0].(*sql.NumberLit)
-				if !ok {
+				n, ok := literalInt(n.Args[0])
+				if !ok || n > maxRandomBlob {
 					break
 				}
-				n, err := strconv.Atoi(lit.Value)
-				if err != nil {
-					break
-				}
-				retNode = &sql.BlobLit{Value: fmt.Sprintf(`%X`, random.Bytes(max(n, 1)))}
+				retNode = &sql.BlobLit{Value: fmt.Sprintf(`%X`, random.Bytes(int(max(n, 1))))}
 				rw.modified = true
 			}
 		}
@@ -246,12 +283,61 @@ func (rw *Rewriter) VisitEnd(node sql.Node) (sql.Node, error) {
 }
 
 func isNow(e sql.Expr) bool {
+	for {
+		p, ok := e.(*sql.ParenExpr)
+		if !ok {
+			break
+		}
+		e = p.X
+	}
 	if i, ok := e.(*sql.Ident); ok {
 		return strings.EqualFold(i.Name, "now")
 	} else if s, ok := e.(*sql.StringLit); ok {
 		return strings.EqualFold(s.Value, "now")
 	}
 	return false
+}
+
+// maxRandomBlob is the largest blob randomblob(N) is rewritten for. SQLite
+// itself refuses blobs larger than this.
+const maxRandomBlob = 1000000000
+
+// literalInt returns the integer SQLite would read from a literal value used
+// where an integer is expected, and whether e is such a literal.
+func literalInt(e sql.Expr) (int64, bool) {
+	switch lit := e.(type) {
+	case *sql.NumberLit:
+		v := strings.ReplaceAll(lit.Value, "_", "")
+		if n, err := strconv.ParseInt(v, 0, 64); err == nil {
+			return n, true
+		}
+		if f, err := strconv.ParseFloat(v, 64); err == nil && !math.IsNaN(f) && math.Abs(f) < 1e18 {
+			return int64(f), true
+		}
+	case *sql.StringLit:
+		// SQLite uses the longest integer prefix of the text.
+		v := strings.TrimLeft(lit.Value, " \t\n\r\f")
+		end := 0
+		if end < len(v) && (v[end] == '-' || v[end] == '+') {
+			end++
+		}
+		for end < len(v) && v[end] >= '0' && v[end] <= '9' {
+			end++
+		}
+		n, err := strconv.ParseInt(v[:end], 10, 64)
+		if err != nil {
+			n = 0
+		}
+		return n, true
+	case *sql.NullLit:
+		return 0, true
+	case *sql.BoolLit:
+		if lit.Value {
+			return 1, true
+		}
+		return 0, true
+	}
+	return 0, false
 }
 
 func julianDayAsNumberLit(t time.Time) *sql.NumberLit {
